@@ -170,7 +170,10 @@ def run(run, model):
     run.do(c08.define_tables, model, "C14.snapshot-returns-func")
     run.do(c17.invariant_decorator_table, model, "C14.invariant-returns-cls")
     run.do(twins.colour, model, "C14.colour")
+    run.do(twins.body_await, model, "C14.body-await")
     run.do(inv.install, model, "C14.install", "C14.new-guard")
+    # which members are wrapped at all: static and class methods (own or inherited) stay as they are
+    run.do(inv.selection, model, "C14.wrapped-members", "C14.wrapped-members-source")
     from . import meta
     run.do(meta.namespace_rebind_rule, model, "C14.namespace-rebind")
     run.minimum("C14.forward", 11)
